@@ -17,11 +17,11 @@ import (
 // MapV, IfaceV, FuncV, TupleV, ChanV, IterV. All values are immutable.
 type Value interface{}
 
-// StrV is a Go string: either an SMT String term, or a concrete-length vector of BV8 terms.
+// StrV is a Go string: a vector of BV8 terms plus an optional symbolic length (see bstr.go).
 type StrV struct {
-	T     *smt.Term
 	Bytes []*smt.Term
-	IsB   bool
+	Len   *smt.Term // BV16, nil => len(Bytes)
+	IsB   bool      // always true (kept for readability of old call sites)
 }
 
 type PtrV struct {
@@ -76,48 +76,44 @@ type ChanData struct {
 	Closed bool
 }
 
-func strC(s string) StrV         { return StrV{T: smt.StrC(s)} }
-func strT(t *smt.Term) StrV      { return StrV{T: t} }
-func strB(bs []*smt.Term) StrV   { return StrV{Bytes: bs, IsB: true} }
-func (s StrV) IsConst() bool {
-	if s.IsB {
-		for _, b := range s.Bytes {
-			if !b.IsConst() {
-				return false
-			}
-		}
-		return true
+func strC(s string) StrV {
+	bs := make([]*smt.Term, len(s))
+	for i := 0; i < len(s); i++ {
+		bs[i] = smt.BVC(8, uint64(s[i]))
 	}
-	return s.T.IsConst()
+	return StrV{Bytes: bs, IsB: true}
+}
+func strB(bs []*smt.Term) StrV {
+	if bs == nil {
+		bs = []*smt.Term{}
+	}
+	return StrV{Bytes: bs, IsB: true}
+}
+func (s StrV) IsConst() bool {
+	if s.Len != nil && !s.Len.IsConst() {
+		return false
+	}
+	n := len(s.Bytes)
+	if s.Len != nil {
+		n = int(s.Len.U)
+	}
+	for _, b := range s.Bytes[:n] {
+		if !b.IsConst() {
+			return false
+		}
+	}
+	return true
 }
 func (s StrV) ConstVal() string {
-	if s.IsB {
-		b := make([]byte, len(s.Bytes))
-		for i, t := range s.Bytes {
-			b[i] = byte(t.U)
-		}
-		return string(b)
+	n := len(s.Bytes)
+	if s.Len != nil {
+		n = int(s.Len.U)
 	}
-	return s.T.S
-}
-
-// Term returns the SMT String form.
-func (s StrV) Term() *smt.Term {
-	if !s.IsB {
-		return s.T
+	b := make([]byte, n)
+	for i := 0; i < n; i++ {
+		b[i] = byte(s.Bytes[i].U)
 	}
-	if s.IsConst() {
-		return smt.StrC(s.ConstVal())
-	}
-	var parts []*smt.Term
-	for _, b := range s.Bytes {
-		if b.IsConst() {
-			parts = append(parts, smt.StrC(string([]byte{byte(b.U)})))
-		} else {
-			parts = append(parts, smt.StrFromCode(smt.BV2Nat(b)))
-		}
-	}
-	return smt.StrConcat(parts...)
+	return string(b)
 }
 
 // ---------- type helpers ----------
@@ -282,7 +278,7 @@ func showValue(v Value) string {
 		if x.IsConst() {
 			return fmt.Sprintf("%q", x.ConstVal())
 		}
-		return x.Term().String()
+		return fmt.Sprintf("str(cap %d)", len(x.Bytes))
 	case PtrV:
 		if x.Obj == 0 {
 			return "nilptr"
